@@ -61,8 +61,9 @@ impl Matcher for NoGroupMatcher {
     fn matches(&self, file_info: &WalkEntry, _: &mut MatcherIO) -> bool {
         use nix::unistd::Gid;
 
+        // (an entry whose status cannot be read is diagnosed, not matched)
         let Ok(metadata) = file_info.metadata() else {
-            return true;
+            return false;
         };
 
         let Ok(gid) = Group::from_gid(Gid::from_raw(metadata.gid())) else {
